@@ -1,6 +1,7 @@
 use crate::Prop;
 pub mod c01;
 pub mod c02;
+pub mod memcheck;
 pub mod c03;
 pub mod c04;
 pub mod c05;
@@ -27,6 +28,7 @@ pub fn lookup(id: &str) -> Option<&'static dyn Prop> {
     Some(match id {
         "C01" => &c01::C01,
         "C02" => &c02::C02,
+        "C02V" => &c02::C02V,
         "C03" => &c03::C03,
         "C04" => &c04::C04,
         "C05" => &c05::C05,
@@ -36,6 +38,7 @@ pub fn lookup(id: &str) -> Option<&'static dyn Prop> {
         "C09" => &c09::C09,
         "C09T" => &tsan::C09T,
         "C10" => &c10::C10,
+        "C10V" => &c10::C10V,
         "C11" => &c11::C11,
         "C12" => &c12::C12,
         "C13" => &c13::C13,
